@@ -358,6 +358,15 @@ def evalsTo (σ : Scope) (e : Expr) (p : Rat → Bool) : Bool :=
   | .ok v => p v
   | .error _ => false
 
+/-- the duration expressions of the sub-templates of an atomic multi channel template agree at the parameters (the code
+compares the durations of the sub-waveforms that exist only) -/
+def sameDurations (subs : List PT) (σ : Scope) : Bool :=
+  match subs with
+  | [] => true
+  | p :: ps => match templateDuration p σ with
+      | .ok d => ps.all (fun q => match templateDuration q σ with | .ok d' => d' == d | .error _ => false)
+      | .error _ => false
+
 mutual
 /-- durations, entry times and repetition counts are non-negative, the entry times of a table do not decrease, counts
 and loop ranges are exact integers (the code accepts values within 1e-6 of an integer, instantiates negative
@@ -367,7 +376,9 @@ def regular : PT → Scope → Bool
   | .table _ entries _ _, σ => entries.all (fun x => match instEntries σ x.2 with
       | .ok ws => sortedTimes ws && ws.all (fun w => decide (0 ≤ w.t))
       | .error _ => false)
-  | .point _ _ entries _ _, σ => entries.all (fun x => evalsTo σ x.t (fun t => decide (0 ≤ t)))
+  | .point _ chans entries _ _, σ => (List.range chans.length).all (fun i => match instPoint σ i entries with
+      | .ok ws => sortedTimes ws && ws.all (fun w => decide (0 ≤ w.t))
+      | .error _ => false)
   | .func _ _ dur _ _ _, σ => evalsTo σ dur (fun d => decide (0 ≤ d))
   | .seq _ subs _ _, σ => regularAll subs σ
   | .rep _ body count _ _, σ => evalsTo σ count (fun c => isInt c && decide (0 ≤ c)) && regular body σ
@@ -379,13 +390,43 @@ def regular : PT → Scope → Bool
       | _, _, _ => false
   | .mapping _ body pm _ _ _, σ => regular body (.mapped σ pm)
   | .parallel _ body _, σ => regular body σ
-  | .atomicMulti _ subs _ _ _, σ => regularAll subs σ
+  | .atomicMulti _ subs _ _ _, σ => regularAll subs σ && sameDurations subs σ
   | .arith _ body _ _ _, σ => regular body σ
   | .arithAtomic _ lhs _ rhs _, σ => regular lhs σ && regular rhs σ
   | .timeReversal _ body, σ => regular body σ
 def regularAll : List PT → Scope → Bool
   | [], _ => true
   | p :: ps, σ => regular p σ && regularAll ps σ
+end
+
+/-- at least one of the channels is kept by the channel mapping -/
+def keepsSome (cm : List (Chan × Option Chan)) (cs : List Chan) : Bool :=
+  cs.any (fun c => match cm.lookup c with | some (some _) => true | _ => false)
+
+mutual
+/-- every atomic leaf keeps at least one channel under the channel mapping.  An atomic leaf all of whose channels are
+dropped vanishes from the instantiated pulse together with its duration (`build_waveform` returns `None`); the closed
+forms of channels added around it (parallel channel, scalar offset times duration) then describe a pulse that is not
+instantiated -- the same exclusion C04 makes -/
+def keeps : PT → List (Chan × Option Chan) → Bool
+  | .const _ _ amps _, cm => keepsSome cm (amps.map (·.1))
+  | .table _ entries _ _, cm => keepsSome cm (entries.map (·.1))
+  | .point _ chans _ _ _, cm => keepsSome cm chans
+  | .func _ ch _ _ _ _, cm => keepsSome cm [ch]
+  | .seq _ subs _ _, cm => keepsAll subs cm
+  | .rep _ body _ _ _, cm => keeps body cm
+  | .forLoop _ body _ _ _ _ _ _, cm => keeps body cm
+  | .mapping _ body _ _ cm' _, cm => match updatedCm cm' cm with
+      | .ok cmU => keeps body cmU
+      | .error _ => false
+  | .parallel _ body _, cm => keeps body cm
+  | .atomicMulti _ subs _ _ _, cm => keepsAll subs cm
+  | .arith _ body _ _ _, cm => keeps body cm
+  | .arithAtomic _ lhs _ rhs _, cm => keeps lhs cm && keeps rhs cm
+  | .timeReversal _ body, cm => keeps body cm
+def keepsAll : List PT → List (Chan × Option Chan) → Bool
+  | [], _ => true
+  | p :: ps, cm => keeps p cm && keepsAll ps cm
 end
 
 /-- documented classes on the initial / final path of a template -/
@@ -479,7 +520,8 @@ def pathTags (e : End) : PT → Scope → List (MName × Option MName) → List 
       let r ← if rhs.definedChannels.contains ch then pathTags e rhs σ mm cm ch else pure []
       let le := chanEmpty (denote lhs σ mm cm) cm ch
       let re := chanEmpty (denote rhs σ mm cm) cm ch
-      pure ((if le != re then [Tag.emptyPart] else []) ++ l ++ r)
+      let both := lhs.definedChannels.contains ch && rhs.definedChannels.contains ch
+      pure ((if both && (le != re) then [Tag.emptyPart] else []) ++ l ++ r)
   | .timeReversal .., _, _, _, _ => .ok []
 def pathTagsEnd (e : End) : List PT → Scope → List (MName × Option MName) → List (Chan × Option Chan) → Chan →
     Except Err (List Tag)
@@ -511,6 +553,7 @@ define the same channels, a channel mapping is total on the body's channels and 
 def supported : PT → Bool
   | .const _ _ amps _ => !hasDup (amps.map (·.1))
   | .table .. => true
+  | .point .. => true
   | .func _ _ _ e _ _ => e.affineIn "t"
   | .seq _ subs _ _ => supportedAll subs && sameChannels (PT.firstChannels subs) subs
   | .rep _ body _ _ _ => supported body
